@@ -27,6 +27,7 @@ let idx_uid : (int, int) Hashtbl.t = Hashtbl.create 64
 let dummy_target : (int, int) Hashtbl.t = Hashtbl.create 8       (* external joiner dummy id -> target id *)
 let pending_nb : (int, (int * bool * z)) Hashtbl.t = Hashtbl.create 8
 let primary_ptr = ref 0
+let ext_joiner : (int, int) Hashtbl.t = Hashtbl.create 8         (* actor pointer -> dummy id of its current join *)
 let root_ptrs : (int, bool) Hashtbl.t = Hashtbl.create 8         (* root ULTs of the streams: outside the model *)
 
 (* ---- state with O(1) maps: after every step the touched entries are copied into hash tables ---- *)
@@ -105,8 +106,8 @@ let () =
          (* ---- harness records ---- *)
          | "K1015", [idx; ptr; _] -> Hashtbl.replace pool_of_ptr (int_of_string ptr) (int_of_string idx)
          | "K1017", [_; sp; up] -> Hashtbl.replace sched_unit (int_of_string sp) (int_of_string up);
-           if !primary_ptr = 0 then primary_ptr := aptr
-         | "K1013", _ -> if !primary_ptr = 0 then primary_ptr := aptr
+           if !primary_ptr = 0 then begin primary_ptr := aptr; ignore (unit_id ln aptr) end
+         | "K1013", _ -> if !primary_ptr = 0 then begin primary_ptr := aptr; ignore (unit_id ln aptr) end
          | "K1014", [op; idx; c] ->
            let op = int_of_string op and idx = int_of_string idx in
            if op = Char.code 'C' || op = Char.code 'c' then begin
@@ -162,7 +163,12 @@ let () =
            apply ln desc (EReqLoad (nat_of u, nat_of (hex site), j, c, m)) [u] [] []
          | "REQOR", [t; b; old] -> let u = unit_id ln (hex t) in let b = hex b in let (j, c, m) = bits (hex old) in
            let bit = if b land 1 <> 0 then 0 else if b land 2 <> 0 then 1 else 2 in
-           apply ln desc (EReqOr (nat_of u, nat_of bit, b land 0x100 <> 0, j, c, m)) [u] [] []
+           (* the joiner: the calling ULT, or a dummy standing for an external thread / tasklet *)
+           let who = if bit <> 0 || b land 0x100 <> 0 then 0
+             else (match Hashtbl.find_opt unit_of_ptr aptr with
+                 | Some x when ((!cur).un (nat_of x)).isult && (match ((!cur).un (nat_of x)).ust with URunning -> true | _ -> false) -> x
+                 | _ -> let d = !next_uid in incr next_uid; Hashtbl.replace ext_joiner aptr d; d) in
+           apply ln desc (EReqOr (nat_of u, nat_of bit, b land 0x100 <> 0, j, c, m, nat_of who)) [u] [] []
          | "REQAND", [t; b; _] -> let u = unit_id ln (hex t) in
            apply ln desc (EReqAnd (nat_of u, nat_of (if hex b = 4 then 2 else if hex b = 2 then 1 else 0))) [u] [] []
          | "STATE", [t; v; _] -> let u = unit_id ln (hex t) in
@@ -175,7 +181,10 @@ let () =
          | "LINKST", [t; j; ext] ->
            let tgt = unit_id ln (hex t) in
            if hex ext <> 0 then begin
-             let d = fresh_uid (hex j) in Hashtbl.replace dummy_target d tgt;
+             let d = (match Hashtbl.find_opt ext_joiner aptr with
+                 | Some d -> Hashtbl.replace unit_of_ptr (hex j) d; d
+                 | None -> fresh_uid (hex j)) in
+             Hashtbl.replace dummy_target d tgt;
              apply ln desc (ELinkSt (nat_of tgt, nat_of d, true)) [tgt; d] [] []
            end else let j = unit_id ln (hex j) in apply ln desc (ELinkSt (nat_of tgt, nat_of j, false)) [tgt; j] [] []
          | "LINKLD", [t; l; _] -> let u = unit_id ln (hex t) in
@@ -204,7 +213,13 @@ let () =
            (match Hashtbl.find_opt sched_unit (hex sp) with
             | Some up -> let u = unit_id ln up in apply ln desc (EFinish (nat_of u)) [u] [] []
             | None -> ())
-         | ("QEMPTY" | "NBLOAD" | "NSLOAD" | "SREQOR" | "SREQLD" | "XSTATE" | "RUNTASK"), _ -> ()
+         | "QEMPTY", [qp; _; v] ->
+           (match Hashtbl.find_opt queue_pool (hex qp) with
+            | Some p -> apply ln desc (EEmptyLoad (nat_of p, hex v <> 0)) [] [p] []
+            | None -> if hex v = 0 then raise (Mismatch (Printf.sprintf "line=%d a queue nothing was pushed to is reported non-empty" ln)))
+         | "NBLOAD", [p; _; v] -> let p = pool_id (hex p) in
+           apply ln desc (ENbLoad (nat_of p, z_of_int (let v = hex v in if v >= 0x80000000 then v - 0x100000000 else v))) [] [p] []
+         | ("NSLOAD" | "SREQOR" | "SREQLD" | "XSTATE" | "RUNTASK"), _ -> ()
          | _ -> raise (Mismatch (Printf.sprintf "line=%d unknown record %s" ln desc)))
       | _ -> ()) lines
   with Mismatch m -> mism := Some m);
